@@ -109,3 +109,20 @@ Section Sums1.
       apply is_derive_scal. apply is_derive_powerRZ. exact Hy.
   Qed.
 End Sums1.
+
+(** the sums only depend on the coefficient values *)
+Lemma msum_dx_ext f g x y l : (forall k, f k = g k) -> msum_dx f x y l = msum_dx g x y l.
+Proof.
+  intros H. induction l as [|[[i j] k] r IH]; [reflexivity|]. cbn [msum_dx fold_right].
+  fold (msum_dx f x y r). fold (msum_dx g x y r). rewrite IH, H. reflexivity.
+Qed.
+Lemma msum_dy_ext f g x y l : (forall k, f k = g k) -> msum_dy f x y l = msum_dy g x y l.
+Proof.
+  intros H. induction l as [|[[i j] k] r IH]; [reflexivity|]. cbn [msum_dy fold_right].
+  fold (msum_dy f x y r). fold (msum_dy g x y r). rewrite IH, H. reflexivity.
+Qed.
+Lemma msum1_dy_ext f g y l : (forall k, f k = g k) -> msum1_dy f y l = msum1_dy g y l.
+Proof.
+  intros H. induction l as [|[j k] r IH]; [reflexivity|]. cbn [msum1_dy fold_right].
+  fold (msum1_dy f y r). fold (msum1_dy g y r). rewrite IH, H. reflexivity.
+Qed.
